@@ -708,10 +708,12 @@ class CallMixin:
             node = ast.parse(txt.strip(), mode='eval').body
             self.text_cache[txt] = node
         self._pure += 1
+        self._in_text = getattr(self, '_in_text', 0) + 1
         try:
             v = self.ev(node, fr)
         finally:
             self._pure -= 1
+            self._in_text -= 1
         t = self.truth(v) if not isinstance(v, (int,)) or isinstance(v, bool) else v
         return t
 
